@@ -77,6 +77,8 @@ class C11Hook:
                     again = engine.Alone().compile(text, ms, "fresh.feature", srcclass)
                     if idmodel.all_ids(again["parse"]["raw"]) != idmodel.all_ids(cr["parse"]["raw"]) or idmodel.all_ids(again["raw"]) != idmodel.all_ids(cr["raw"]):
                         verdict = ("bad", "equal input processed twice with fresh generators gave different ids")
+            if len(self.fresh_cache) > 20000:
+                self.fresh_cache.clear()
             self.fresh_cache[key] = verdict
             self.stats["fresh_literal_checks"] += 1
         if verdict[0] == "bad":
